@@ -335,6 +335,9 @@ static void nx_init(int argc, char **argv, int bound, long tabcap)
 	}
 }
 
+static void nx_trace_snapshot(int argc, char **argv);
+static void nx_emit_trace(void);
+
 /* run one exploration from the current (freshly initialised) process state; returns in the root process only */
 static void nx_run(int argc_ed, char **argv_ed)
 {
@@ -347,14 +350,19 @@ static void nx_run(int argc_ed, char **argv_ed)
 		exit(2);
 	}
 	if (!pid) {
+		int keep = nvx_fedlen;
 		nx_depth = 0;
 		nx_in_leaf = 0;
+		nx_trace_snapshot(argc_ed, argv_ed);
+		nvx_fedlen = keep;		/* the set-up input fed before nx_run belongs to the trace */
 		nv_main(argc_ed, argv_ed);
 		alarm(0);
 		nx_exited = 1;
 		if (!nx_probe) {
 			__sync_fetch_and_add(&nx_sh->exits, 1);
 			nx_at_exit();
+			if (nx_in_leaf)
+				nx_emit_trace();
 		} else if (nx_probe_fn) {
 			nx_probe_fn();
 		}
@@ -363,6 +371,7 @@ static void nx_run(int argc_ed, char **argv_ed)
 	}
 	while (waitpid(pid, &st, 0) < 0)
 		;
+	nvx_fedlen = 0;
 	if (WIFSIGNALED(st))
 		nv_viol("crash", "kind=history config=%s the root exploration process died with signal %d", nx_config_name(), WTERMSIG(st));
 	else if (WIFEXITED(st) && WEXITSTATUS(st) == 2)
@@ -396,6 +405,83 @@ static void nx_report(void)
 	nx_sh->states = nx_sh->transitions = nx_sh->leaves = nx_sh->pruned = nx_sh->viols = nx_sh->exits = 0;
 	nx_sh->twins = nx_sh->distinct = nx_sh->hangs = nx_sh->crashes = nx_sh->traces = nx_sh->cut = 0;
 	memset(nx_sh->hist, 0, sizeof(nx_sh->hist));
+}
+
+/* ---- conformance traces ------------------------------------------------------------------------------------------
+ * A trace is everything needed to repeat one explored history on the stock binary: argv, environment, the
+ * initial files, every input byte, and what the harness observed (final files, ex-mode output).
+ */
+static struct { char path[96]; char *data; long len; } nx_init_files[VFS_MAXFILES];
+static int nx_ninit;
+static int nx_trace_ok = 1;		/* cleared when the history contains something the stock replay cannot reproduce */
+static char nx_trace_argv[256];
+static int nx_trace_stdout;		/* compare the ex-mode output too */
+
+static void nx_trace_snapshot(int argc, char **argv)
+{
+	int i, o = 0;
+	nx_ninit = 0;
+	for (i = 0; i < vfs_n; i++)
+		if (vfs[i].exists) {
+			snprintf(nx_init_files[nx_ninit].path, sizeof(nx_init_files[0].path), "%s", vfs[i].path);
+			nx_init_files[nx_ninit].data = malloc(vfs[i].len + 1);
+			memcpy(nx_init_files[nx_ninit].data, vfs[i].data, vfs[i].len + 1);
+			nx_init_files[nx_ninit].len = vfs[i].len;
+			nx_ninit++;
+		}
+	nx_trace_argv[0] = '\0';
+	for (i = 1; i < argc; i++)
+		o += snprintf(nx_trace_argv + o, sizeof(nx_trace_argv) - o, "%s\"%s\"", i > 1 ? "," : "", argv[i]);
+	nx_trace_ok = 1;
+	nvx_fedlen = 0;
+	nvx_exall_len = 0;
+}
+
+static void nx_hex(char *d, const void *s, long n);
+static void nx_emit_trace(void)
+{
+	char *line, *hex;
+	long cap = 1 << 16, o = 0;
+	int i;
+	if (!nx_trace_ok || !nx_trace_every)
+		return;
+	if (__sync_fetch_and_add(&nx_sh->traces, 1) % nx_trace_every)
+		return;
+	for (i = 0; i < vfs_n; i++)
+		cap += vfs[i].len * 2 + 256;
+	for (i = 0; i < nx_ninit; i++)
+		cap += nx_init_files[i].len * 2 + 256;
+	cap += nvx_fedlen * 2 + nvx_exall_len * 2;
+	line = malloc(cap);
+	hex = malloc(cap);
+	o += snprintf(line + o, cap - o, "TRACE {\"argv\":[%s],\"env\":{\"LINES\":\"%s\",\"COLUMNS\":\"%s\",\"EXINIT\":\"%s\"},\"files\":{", nx_trace_argv,
+		getenv("LINES") ? getenv("LINES") : "24", getenv("COLUMNS") ? getenv("COLUMNS") : "80", getenv("EXINIT") ? getenv("EXINIT") : "");
+	for (i = 0; i < nx_ninit; i++) {
+		nx_hex(hex, nx_init_files[i].data, nx_init_files[i].len);
+		o += snprintf(line + o, cap - o, "%s\"%s\":\"%s\"", i ? "," : "", nx_init_files[i].path, hex);
+	}
+	nx_hex(hex, nvx_fedlog, nvx_fedlen);
+	o += snprintf(line + o, cap - o, "},\"input\":\"%s\",\"expect_files\":{", hex);
+	{
+		int first = 1;
+		for (i = 0; i < vfs_n; i++)
+			if (vfs[i].exists) {
+				nx_hex(hex, vfs[i].data, vfs[i].len);
+				o += snprintf(line + o, cap - o, "%s\"%s\":\"%s\"", first ? "" : ",", vfs[i].path, hex);
+				first = 0;
+			}
+	}
+	o += snprintf(line + o, cap - o, "}");
+	if (nx_trace_stdout) {
+		nx_hex(hex, nvx_exall ? nvx_exall : "", nvx_exall_len);
+		o += snprintf(line + o, cap - o, ",\"expect_stdout\":\"%s\"", hex);
+	}
+	o += snprintf(line + o, cap - o, "}\n");
+	fflush(nv_out);
+	if (__real_write(fileno(nv_out), line, o) < 0)
+		_exit(3);
+	free(line);
+	free(hex);
 }
 
 /* conformance trace: the whole input of this history plus what the harness observed, as one JSON line */
